@@ -99,16 +99,25 @@ fn run_forms(im: &mut Impl, forms: &[String], sched: &[u8]) -> Run {
         match sched.get(i).copied().unwrap_or(0) {
             1 => {
                 let vm = &mut im.vm;
-                let _ = std::panic::catch_unwind(std::panic::AssertUnwindSafe(|| vm.verif_collect_now()));
+                if std::panic::catch_unwind(std::panic::AssertUnwindSafe(|| vm.verif_collect_now())).is_err() {
+                    // the audit found a broken invariant: the heap cannot be trusted any further
+                    outs.push("panic: heap audit failed at the forced collection".into());
+                    break;
+                }
             }
             2 => verif::set_schedule(GcSchedule::Every { k: 1, phase: 0 }),
             _ => {}
         }
         let o = im.eval_text(f);
         verif::set_schedule(GcSchedule::Never);
+        let panicked = matches!(o, ImplOut::Panic(_));
         outs.push(o.show());
+        if panicked {
+            // never keep evaluating on a VM whose evaluation panicked (its heap may be corrupt)
+            break;
+        }
     }
-    verif::set_after_gc(None);
+    crate::conform::install_default_audit();
     let problems = log.borrow().clone();
     Run { outs, audit_problems: problems }
 }
@@ -155,6 +164,9 @@ fn pair_case(st: &mut St, acc: &mut Acc, r1: usize, r2: usize, n1: &(String, Str
     let im = vm(st);
     let run = run_forms(im, &forms, &sched_v);
     let last = run.outs.last().cloned().unwrap_or_default();
+    if run.outs.iter().any(|o| o.starts_with("panic")) {
+        st.im = None;
+    }
     let expected = match mode {
         1 => format!("({} #t {})", want, string_literal(&n2.1)),
         _ => want.to_string(),
